@@ -200,8 +200,8 @@ Record fixes := {
   fx_F4 : bool;   (* fix: ae6db4f (fixes/C13-F4.diff): decoded Path and RawPath in the Envoy context *)
   fx_F6 : bool;   (* fix: 06faa19 (fixes/C13-F6.diff): grpcv3 Header("Host") gives the request host *)
   fx_F7 : bool;   (* fix: 19923cd (fixes/C13-F7.diff): grpcv3 Body() of an empty body is "" *)
-  fx_F9 : bool;   (* candidate fixes/C13-F9.diff: grpcv3 falls back to the string field [body] when [raw_body] is empty *)
-  fx_F11 : bool   (* candidate fixes/C13-F11.diff: grpcv3 splits the request target at the first "?" *)
+  fx_F9 : bool;   (* fix: 58408fc (fixes/C13-F9.diff): grpcv3 falls back to the string field [body] when [raw_body] is empty *)
+  fx_F11 : bool   (* fix: 9fe653a (fixes/C13-F11.diff): grpcv3 splits the request target at the first "?" *)
 }.
 
 Definition pinned : fixes :=
@@ -227,8 +227,8 @@ Definition set_F11 (b : bool) (f : fixes) : fixes :=
      fx_F9 := fx_F9 f; fx_F11 := b |}.
 
 (** /repo today (b37641c): the six committed repairs are in — F1 b2286d8, F2 7c3e9fc, F3 a5ef279,
-    F4 ae6db4f, F6 06faa19, F7 19923cd; C13-F9 and C13-F11 are open *)
-Definition repo_now : fixes := set_F11 false (set_F9 false all_fixed).
+    F4 ae6db4f, F6 06faa19, F7 19923cd, F9 58408fc, F11 9fe653a *)
+Definition repo_now : fixes := all_fixed.
 
 (** what grpcv3.NewRequestContext takes for path and query: as pinned the two attributes as they are
     (finding C13-F11: with the documented Envoy shape the query string stays glued to the path); with the
@@ -732,11 +732,14 @@ Definition pipeline_prog (authz : option cond) (steps : list step) : prog :=
 Definition forwarded_uri (L : lreq) : string :=
   l_rawpath L ++ (if nonempty (l_query L) then "?" ++ l_query L else "").
 
-Definition parse_forwarded_uri (v : string) : option (string * string) :=
+Definition parse_forwarded_uri (fixed_F10 : bool) (v : string) : option (string * string) :=
   let '(p, q) := GoUrl.cut_on "?" v in
   match GoUrl.set_path p with
   | None => None
-  | Some (path, rp) => Some (GoUrl.escaped_path path rp, GoUrl.values_encode (fst (GoUrl.parse_query q)))
+  | Some (path, rp) =>
+    Some (GoUrl.escaped_path path rp,
+          if fixed_F10 then q                                       (* candidate fixes/C13-F10.diff: RawQuery as sent *)
+          else GoUrl.values_encode (fst (GoUrl.parse_query q)))     (* as it is: Query().Encode() — finding C13-F10 *)
   end.
 
 Definition tp_carrier_host := "heimdall.internal".
@@ -750,7 +753,8 @@ Definition tp_headers (L : lreq) : hdrs :=
   [(XFM, l_method L); (XFP, scheme_of L); (XFH, l_host L); (XFU, forwarded_uri L)].
 
 (** the view of the decision service behind the trusted proxy (the middleware leaves the headers: [strip true]) *)
-Definition view_tp (L : lreq) : view := view_of parse_forwarded_uri (tp_conn L) (strip true (tp_headers L)).
+Definition view_tp (fixed_F10 : bool) (L : lreq) : view :=
+  view_of (parse_forwarded_uri fixed_F10) (tp_conn L) (strip true (tp_headers L)).
 
 (** the view of a service that gets the request itself (C13's other encodings) *)
 Definition view_direct (L : lreq) : view := view_of (fun _ => None) (http_conn L) (http_hdrs L).
